@@ -4,16 +4,17 @@
 -/
 import SoupVerif.Lemmas.RegexCost.Excl
 import Mathlib.Data.List.Nodup
+set_option autoImplicit false
 namespace SoupVerif
 namespace Rx
 
 /-- Semantic determinism of a list of ends from every start: no duplicates, and whenever one end
     is a proper prefix of another, the symbol after the shorter lies in `FL`. -/
-def DetSem (s : Str) (E : Nat → List Nat) (FL : CSet) : Prop :=
-  ∀ i, (E i).Nodup ∧ ∀ e1 e2, e1 ∈ E i → e2 ∈ E i → e1 < e2 → FL.mem s[e1]? = true
+def DetSem (sp : Specials) (s : Str) (E : Nat → List Nat) (FL : CSet) : Prop :=
+  ∀ i, (E i).Nodup ∧ ∀ e1 e2, e1 ∈ E i → e2 ∈ E i → e1 < e2 → FL.mem sp s[e1]? = true
 
-theorem detSem_of_single (s : Str) (E : Nat → List Nat) (FL : CSet)
-    (h : ∀ i, (E i).length ≤ 1) : DetSem s E FL := by
+theorem detSem_of_single (sp : Specials) (s : Str) (E : Nat → List Nat) (FL : CSet)
+    (h : ∀ i, (E i).length ≤ 1) : DetSem sp s E FL := by
   intro i
   have := h i
   match hE : E i with
@@ -39,17 +40,17 @@ theorem moreE_of_pos {body : Nat → List Nat} (hP : ∀ q e, e ∈ body q → q
 
 /-- The unique-decomposition theorem: iterating a deterministic, non-nullable body whose
     follow-last set is disjoint from its first set is deterministic. -/
-theorem iterE_detSem (s : Str) (B : Nat → List Nat) (FL FI CF : CSet) (mn : Nat) (mx : Option Nat)
+theorem iterE_detSem (sp : Specials) (s : Str) (B : Nat → List Nat) (FL FI CF : CSet) (mn : Nat) (mx : Option Nat)
     (g : Bool)
-    (hB : DetSem s B FL)
+    (hB : DetSem sp s B FL)
     (hP : ∀ q e, e ∈ B q → q < e)
-    (hFI : ∀ q e, e ∈ B q → FI.mem s[q]? = true)
-    (hCF : ∀ q e, e ∈ B q → CF.mem s[q]? = true)
-    (hD : mx = some 1 ∨ CSet.disjoint FL FI = true) :
+    (hFI : ∀ q e, e ∈ B q → FI.mem sp s[q]? = true)
+    (hCF : ∀ q e, e ∈ B q → CF.mem sp s[q]? = true)
+    (hD : mx = some 1 ∨ CSet.disjoint sp FL FI = true) :
     ∀ f c p,
       (iterE B mn mx g f c p).Nodup ∧
       ∀ e1 e2, e1 ∈ iterE B mn mx g f c p → e2 ∈ iterE B mn mx g f c p → e1 < e2 →
-        (if mx == some mn then FL else CSet.union FL CF).mem s[e1]? = true := by
+        (if mx == some mn then FL else CSet.union FL CF).mem sp s[e1]? = true := by
   have hge : ∀ f c p e, e ∈ iterE B mn mx g f c p → p ≤ e := by
     intro f c p e h
     rcases iterE_pos B hP mn mx g f c p e h with h | h <;> omega
@@ -129,8 +130,8 @@ theorem iterE_detSem (s : Str) (B : Nat → List Nat) (FL FI CF : CSet) (mn : Na
         · have := hP e2 p1 hp1
           have := hge _ _ _ _ he1
           omega
-        · have hFLT : ∀ o, FL.mem o = true →
-              (if mx == some mn then FL else CSet.union FL CF).mem o = true := by
+        · have hFLT : ∀ o, FL.mem sp o = true →
+              (if mx == some mn then FL else CSet.union FL CF).mem sp o = true := by
             intro o ho
             split
             · exact ho
@@ -154,12 +155,12 @@ theorem endsAlt_nil (env : CharEnv) (s : Str) (i : Nat) :
     rfl
 
 mutual
-theorem det_sound (env : CharEnv) (ok : EnvOK env) (s : Str) :
-    ∀ r : Rx, Det r = true → DetSem s (fun i => ends env s r i) (fl r)
-  | .lit c ic, _ => detSem_of_single s _ _ (leaf_length_le_one env s _ rfl)
-  | .notLit c ic, _ => detSem_of_single s _ _ (leaf_length_le_one env s _ rfl)
-  | .any d, _ => detSem_of_single s _ _ (leaf_length_le_one env s _ rfl)
-  | .set n is ic, _ => detSem_of_single s _ _ (leaf_length_le_one env s _ rfl)
+theorem det_sound {sp : Specials} (env : CharEnv) (ok : EnvOK sp env) (s : Str) :
+    ∀ r : Rx, Det sp r = true → DetSem sp s (fun i => ends env s r i) (fl sp r)
+  | .lit c ic, _ => detSem_of_single sp s _ _ (leaf_length_le_one env s _ rfl)
+  | .notLit c ic, _ => detSem_of_single sp s _ _ (leaf_length_le_one env s _ rfl)
+  | .any d, _ => detSem_of_single sp s _ _ (leaf_length_le_one env s _ rfl)
+  | .set n is ic, _ => detSem_of_single sp s _ _ (leaf_length_le_one env s _ rfl)
   | .seq rs, h => by
     simp only [Det] at h
     intro i; simp only [ends, fl]; exact detSeq_sound env ok s rs h i
@@ -174,19 +175,19 @@ theorem det_sound (env : CharEnv) (ok : EnvOK env) (s : Str) :
     obtain ⟨⟨hd, hn⟩, hD⟩ := h
     intro i
     simp only [ends, fl]
-    exact iterE_detSem s (fun p => ends env s r p) (fl r) (first r) (cfirst r) mn mx g
+    exact iterE_detSem sp s (fun p => ends env s r p) (fl sp r) (first sp r) (cfirst sp r) mn mx g
       (det_sound env ok s r hd)
       (fun q e he => nullable_sound env s r hn q e he)
       (fun q e he => first_sound env ok s r q e he)
       (fun q e he => cfirst_sound env ok s r q e he (nullable_sound env s r hn q e he))
       hD _ _ _
-  | .bos, _ => detSem_of_single s _ _ (zw_length_le_one env s _ rfl)
-  | .eol, _ => detSem_of_single s _ _ (zw_length_le_one env s _ rfl)
-  | .eos, _ => detSem_of_single s _ _ (zw_length_le_one env s _ rfl)
-  | .look a n r, _ => detSem_of_single s _ _ (zw_length_le_one env s _ rfl)
-theorem detSeq_sound (env : CharEnv) (ok : EnvOK env) (s : Str) :
-    ∀ rs : List Rx, detSeq rs = true → DetSem s (fun i => endsSeq env s rs i) (flSeq rs)
-  | [], _ => detSem_of_single s _ _ (fun i => by simp [endsSeq])
+  | .bos, _ => detSem_of_single sp s _ _ (zw_length_le_one env s _ rfl)
+  | .eol, _ => detSem_of_single sp s _ _ (zw_length_le_one env s _ rfl)
+  | .eos, _ => detSem_of_single sp s _ _ (zw_length_le_one env s _ rfl)
+  | .look a n r, _ => detSem_of_single sp s _ _ (zw_length_le_one env s _ rfl)
+theorem detSeq_sound {sp : Specials} (env : CharEnv) (ok : EnvOK sp env) (s : Str) :
+    ∀ rs : List Rx, detSeq sp rs = true → DetSem sp s (fun i => endsSeq env s rs i) (flSeq sp rs)
+  | [], _ => detSem_of_single sp s _ _ (fun i => by simp [endsSeq])
   | r :: rs, h => by
     simp only [detSeq, Bool.and_eq_true] at h
     obtain ⟨⟨hr, hrs⟩, hdis⟩ := h
@@ -235,9 +236,9 @@ theorem detSeq_sound (env : CharEnv) (ok : EnvOK env) (s : Str) :
       · have := hkey i m2 m1 e2 hm2 hm1 hlt' he2
         have := (endsSeq_endOK env s rs m1 e1 he1).1
         omega
-theorem detAlt_sound (env : CharEnv) (ok : EnvOK env) (s : Str) :
-    ∀ rs : List Rx, detAlt rs = true → DetSem s (fun i => endsAlt env s rs i) (flAlt rs)
-  | [], _ => detSem_of_single s _ _ (fun i => by simp [endsAlt])
+theorem detAlt_sound {sp : Specials} (env : CharEnv) (ok : EnvOK sp env) (s : Str) :
+    ∀ rs : List Rx, detAlt sp rs = true → DetSem sp s (fun i => endsAlt env s rs i) (flAlt sp rs)
+  | [], _ => detSem_of_single sp s _ _ (fun i => by simp [endsAlt])
   | r :: rs, h => by
     simp only [detAlt, Bool.and_eq_true, List.all_eq_true] at h
     obtain ⟨⟨hr, hrs⟩, hex⟩ := h
@@ -266,7 +267,7 @@ end
 
 /-- Key lemma ("deterministic ⇒ unambiguous"): the end positions of a `Det` expression are
     pairwise distinct. -/
-theorem det_ends_nodup (env : CharEnv) (ok : EnvOK env) (s : Str) (r : Rx) (h : Det r = true)
+theorem det_ends_nodup {sp : Specials} (env : CharEnv) (ok : EnvOK sp env) (s : Str) (r : Rx) (h : Det sp r = true)
     (i : Nat) : (ends env s r i).Nodup := (det_sound env ok s r h i).1
 
 end Rx
